@@ -567,6 +567,11 @@ pub mod wa {
         ent = abits((*e).into_any()), dir = None, cols = [ColRef::R(z)],
         other = Some(&mut w.arch_v as &mut dyn ArchDyn));
 
+    site!(S7, WA, w,
+        params = [e: &EntityAny, d: &EntityDirectAny, x: &OneOf<CompB, CompL>],
+        ent = abits(*e), dir = Some(*d), cols = [ColRef::R(x)],
+        other = Some(&mut w.arch_p as &mut dyn ArchDyn));
+
     world_spec!(WA, "WA",
         archs = [(0, ArchP, arch_p), (1, ArchQ, arch_q), (2, ArchR, arch_r), (3, ArchT, arch_t), (4, ArchV, arch_v), (5, ArchX, arch_x)],
         sites = [
@@ -577,6 +582,7 @@ pub mod wa {
             (4, S4, SiteInfo { name: "S4 |&EntityAny, &EntityDirectAny|", matches: &[0, 1, 2, 3, 4, 5], cols: &[&[], &[], &[], &[], &[], &[]], muts: &[], has_dir: true, other: None }),
             (5, S5, SiteInfo { name: "S5 |&EntityAny, &mut CompH|", matches: &[2, 3], cols: &[&[2], &[1]], muts: &[true], has_dir: false, other: Some(5) }),
             (6, S6, SiteInfo { name: "S6 |&Entity<_>, &CompZ|", matches: &[3, 5], cols: &[&[3], &[0]], muts: &[false], has_dir: false, other: Some(4) }),
+            (7, S7, SiteInfo { name: "S7 |&EntityAny, &EntityDirectAny, &OneOf<CompB, CompL>|", matches: &[1, 2, 3, 4], cols: &[&[1], &[0], &[2], &[0]], muts: &[false], has_dir: true, other: Some(0) }),
         ],
         extra = {
             fn acc_double_use(&self, iter: bool, key: Option<Key>, k: &mut dyn FnMut()) -> Option<(usize, usize)> {
